@@ -9,7 +9,11 @@ use crate::wire::{self, op_info, status, Kind, Request, Response};
 use std::collections::{BTreeMap, BTreeSet};
 
 pub const INF: u64 = u64::MAX;
-pub const MAX_REL_TTL: u32 = 60 * 60 * 24 * 30;
+/// Largest TTL / flush delay read as "seconds from now". C05 and C08 state
+/// every TTL and delay as a number of seconds from the store / the flush; there
+/// is no "absolute time above 30 days" reading in them (nor in the code), so
+/// nothing is exempt.
+pub const MAX_REL_TTL: u32 = u32::MAX;
 
 #[derive(Clone, Debug, PartialEq, Eq)]
 pub struct Violation {
